@@ -270,6 +270,7 @@ struct NamedLP
    LPModel M;
    std::vector<std::string> rn, cn;   // row / column names (always filled: user names or the writers' default names)
    std::vector<char> isInt;           // integer marker per column
+   std::vector<char> optional;        // (expected models only) column may legitimately be absent, see expectedAfterRoundTrip
 };
 
 inline void defaultNames(NamedLP& L)
@@ -316,7 +317,9 @@ struct NormStats
 };
 
 // the LP a reader must see after `in` was written in format fmt ("lp"/"mps") with writeZeroObjective = wzo
-inline NamedLP expectedAfterRoundTrip(const NamedLP& in, const std::string& fmt, bool wzo, NormStats& ns)
+// realMps: the real MPS writer tests the objective coefficient with isNotZero(.., epsilon) and prints 15 decimals, so a column
+// without entries whose objective coefficient is below 2e-15 may or may not survive (it is zero "to the printed 15 decimals")
+inline NamedLP expectedAfterRoundTrip(const NamedLP& in, const std::string& fmt, bool wzo, NormStats& ns, bool realMps = false)
 {
    const LPModel& M = in.M;
    NamedLP E;
@@ -342,6 +345,9 @@ inline NamedLP expectedAfterRoundTrip(const NamedLP& in, const std::string& fmt,
       X.up.push_back(M.up[j]);
       E.cn.push_back(in.cn[j]);
       E.isInt.push_back(in.isInt.empty() ? 0 : in.isInt[j]);
+      bool entries = false;
+      for(int i = 0; i < M.m && !entries; i++) if(M.A[i][j] != 0) entries = true;
+      E.optional.push_back(realMps && !wzo && !entries && qabs(M.obj[j]) <= Q(2) / Q(pow10z(15)));
    }
    for(int i = 0; i < M.m; i++)
    {
@@ -391,14 +397,15 @@ inline char rowType(const LPModel& M, int i)
 // comparison of one number; tol == false: exact.  tol == true: "to the printed 15 decimals" (%.15f) resp. 15 significant
 // digits: |r - e| <= 2e-15 + 1e-14 |e| (two units of the 15th decimal: a ranged row is written as lhs and rhs-lhs, each
 // rounded to 15 decimals, and added up by the reader); infinite values must match as infinite.
-inline bool sameNumber(const Q& e, const Q& r, bool tol, double* relOut = nullptr)
+// scale: magnitude the relative part refers to (ranged rows: max(|lhs|,|rhs|), because the reader adds up lhs and range)
+inline bool sameNumber(const Q& e, const Q& r, bool tol, double* relOut = nullptr, const Q* scale = nullptr)
 {
    bool ei = !isFin(e), ri = !isFin(r);
    if(ei || ri) return ei && ri && ((e > 0) == (r > 0));
    if(e == r) return true;
    if(!tol) return false;
    Q d = qabs(e - r);
-   Q thr = Q(2) / Q(pow10z(15)) + qabs(e) / Q(pow10z(14));
+   Q thr = Q(2) / Q(pow10z(15)) + (scale ? *scale : qabs(e)) / Q(pow10z(14));
    if(relOut) *relOut = std::max(*relOut, dq(d) / dq(thr));
    return d <= thr;
 }
@@ -412,8 +419,44 @@ struct Diff
    bool numbersOk = true;    // no failure other than integer markers
 };
 
+inline Diff compareNamedImpl(const NamedLP& E, const NamedLP& R, bool tol, double* maxRel);
 // E (expected) vs R (read back); rows and columns are matched by name.
 inline Diff compareNamed(const NamedLP& E, const NamedLP& R, bool tol, double* maxRel = nullptr)
+{
+   NamedLP Ered;
+   const NamedLP* Ep = &E;
+   if(!E.optional.empty())
+   {
+      std::set<std::string> have(R.cn.begin(), R.cn.end());
+      std::vector<int> perm(E.M.n, 0);
+      bool drop = false;
+      for(int j = 0, k = 0; j < E.M.n; j++)
+      {
+         if(E.optional[j] && !have.count(E.cn[j]))
+         {
+            perm[j] = -1;
+            drop = true;
+         }
+         else perm[j] = k++;
+      }
+      if(drop)
+      {
+         Ered = E;
+         Ered.M.removeColsByPerm(perm);
+         Ered.cn.clear();
+         Ered.isInt.clear();
+         Ered.optional.clear();
+         for(int j = 0; j < E.M.n; j++) if(perm[j] >= 0)
+            {
+               Ered.cn.push_back(E.cn[j]);
+               Ered.isInt.push_back(E.isInt.empty() ? 0 : E.isInt[j]);
+            }
+         Ep = &Ered;
+      }
+   }
+   return compareNamedImpl(*Ep, R, tol, maxRel);
+}
+inline Diff compareNamedImpl(const NamedLP& E, const NamedLP& R, bool tol, double* maxRel)
 {
    Diff d;
    auto fail = [&](const std::string & w, const std::string & det)
@@ -469,11 +512,11 @@ inline Diff compareNamed(const NamedLP& E, const NamedLP& R, bool tol, double* m
       }
       rm[i] = it->second;
    }
-   auto num = [&](const Q & e, const Q & r)
+   auto num = [&](const Q & e, const Q & r, const Q* scale = nullptr)
    {
       if(e == r || (!isFin(e) && !isFin(r) && (e > 0) == (r > 0))) return true;
       d.exactEqual = false;
-      return sameNumber(e, r, tol, maxRel);
+      return sameNumber(e, r, tol, maxRel, scale);
    };
    for(int j = 0; j < X.n; j++)
    {
@@ -489,8 +532,11 @@ inline Diff compareNamed(const NamedLP& E, const NamedLP& R, bool tol, double* m
    {
       int k = rm[i];
       std::string rt(1, rowType(X, i));
-      if(!num(X.lhs[i], Y.lhs[k])) fail("lhs:" + rt, "lhs of row " + E.rn[i] + ": expected " + qsx(X.lhs[i]) + ", read " + qsx(Y.lhs[k]));
-      if(!num(X.rhs[i], Y.rhs[k])) fail("rhs:" + rt, "rhs of row " + E.rn[i] + ": expected " + qsx(X.rhs[i]) + ", read " + qsx(Y.rhs[k]));
+      Q rsc = 0;
+      bool ranged = rt == "r";
+      if(ranged) rsc = std::max(qabs(X.lhs[i]), qabs(X.rhs[i]));
+      if(!num(X.lhs[i], Y.lhs[k], ranged ? &rsc : nullptr)) fail("lhs:" + rt, "lhs of row " + E.rn[i] + ": expected " + qsx(X.lhs[i]) + ", read " + qsx(Y.lhs[k]));
+      if(!num(X.rhs[i], Y.rhs[k], ranged ? &rsc : nullptr)) fail("rhs:" + rt, "rhs of row " + E.rn[i] + ": expected " + qsx(X.rhs[i]) + ", read " + qsx(Y.rhs[k]));
       for(int j = 0; j < X.n; j++) if(!num(X.A[i][j], Y.A[k][cm[j]]))
             fail("coef:" + rt, "coefficient (" + E.rn[i] + "," + E.cn[j] + "): expected " + qsx(X.A[i][j]) + ", read " + qsx(Y.A[k][cm[j]]));
    }
